@@ -451,6 +451,19 @@ func zeroSizeElems(t *schema.Type) bool {
 	return false
 }
 
+// zeroSizeCase: the type under test, or a field of a special case's record, is an array of elements without wire size.
+func zeroSizeCase(c *schema.Case) bool {
+	if c.Shape != nil {
+		return zeroSizeElems(c.Shape)
+	}
+	for _, f := range c.Rec.Fields {
+		if zeroSizeElems(f.Type) {
+			return true
+		}
+	}
+	return false
+}
+
 func (w *W) c06(groups [][]*driver.Bound) {
 	for _, g := range groups {
 		if isEvo(g) {
@@ -716,7 +729,7 @@ func (w *W) c07(groups [][]*driver.Bound) {
 				}
 				// (ii) structure-aware corruption of valid encodings
 				vals := pickValues(refcodec.RecValues(b.Case.Rec, 0, 0), 6, 64)
-				if b.Case.Shape != nil && zeroSizeElems(b.Case.Shape) {
+				if zeroSizeCase(b.Case) {
 					vals = nil
 					w.res.Extra["cases_with_zero_size_elements_not_corrupted"]++
 				}
@@ -837,7 +850,7 @@ func (w *W) c07(groups [][]*driver.Bound) {
 					}
 				}
 				// large valid encodings (more than 4096 elements / bytes really present) with their counts raised
-				if refcodec.IsBig(b.Case.Rec) {
+				if refcodec.IsBig(b.Case.Rec) && !zeroSizeCase(b.Case) {
 					bigs := refcodec.BigValues(b.Case.Rec, w.thorough)
 					if len(bigs) > 6 {
 						bigs = bigs[:6]
